@@ -65,7 +65,10 @@ def conc_op(draw: Any) -> list[Any]:
         return [k, tgt, draw(st.sampled_from(["a", "b"])), draw(JSONV), draw(st.booleans())]
     if k == "sua":
         return [k, draw(st.integers(0, 2)), draw(st.sampled_from(["a", "b"])), draw(JSONV)]
-    if k in ("gat", "gn"):
+    if k == "gat":
+        # third element: deepcopy=True (the default of the API) or False (what Study mostly uses)
+        return [k, draw(st.integers(0, 2)), draw(st.booleans())]
+    if k == "gn":
         return [k, draw(st.integers(0, 2))]
     if k == "gt":
         return [k, tgt]
@@ -171,7 +174,7 @@ def real_call(b: Backend, op: list[Any], rs: Resolver, mine_id: int | None, sid_
     if k == "sua":
         return s.set_study_user_attr(sid_of[rs.study(op[1])], op[2], copy.deepcopy(op[3]))
     if k == "gat":
-        return [norm_trial(t) for t in s.get_all_trials(sid_of[rs.study(op[1])], deepcopy=False)]
+        return [norm_trial(t) for t in s.get_all_trials(sid_of[rs.study(op[1])], deepcopy=bool(len(op) > 2 and op[2]))]
     if k == "gn":
         return s.get_n_trials(sid_of[rs.study(op[1])])
     if k == "gt":
@@ -241,7 +244,7 @@ def execute(case: dict[str, Any], preempt: dict[int, int], tmpdir: str, ctx: Ctx
     mixed = layout.startswith("mixed:")
     env_layout = "threads:" + layout.split(":")[1] if mixed else layout
     nw = len(case["workers"])
-    sched = Scheduler(preempt=preempt, trace_files=conc.target_files(env_layout), record=not preempt)
+    sched = Scheduler(preempt=preempt, trace_files=conc.target_files(env_layout), record=not preempt, copy_yields=True)
     with conc.Env(env_layout, tmpdir, sched, nw) as env:
         s0 = env.setup
         m = ModelStorage()
@@ -517,6 +520,14 @@ CLASSIC = [
     ("finish A / finish B (incrementally kept best trial)", ["complete", "running", "running"], [[["ss", 1, "COMPLETE", -3]], [["ss", 2, "COMPLETE", -1]], [["gat", 0]]]),
     ("finish, refresh / single read", ["running"], [[["ss", 0, "COMPLETE", 1], ["gat", 0]], [["gt", 0], ["gt", 0]]]),
     ("refresh / create / single read", ["running", "running"], [[["gat", 0], ["gat", 0]], [["ct", 0], ["gt", "mine"], ["ss", "mine", "FAIL", 0]]]),
+    # a snapshot of all trials against two ordered writes to a low- and a high-numbered trial
+    # (yield points between the elements of the list being copied): the snapshot may not contain
+    # the second write without the first
+    ("snapshot / ordered writes to two trials", ["running", "running", "running"], [[["gat", 0, True]], [["ua", 0, "a", 1, True], ["ua", 2, "b", 2, True]]]),
+    # a call that is rejected (finished trial / duplicate study name) followed by reads of the same
+    # worker, against another worker's create: the rejected call may not hide the other's write
+    ("rejected write, read / create", ["complete"], [[["ss", 0, "FAIL", 0], ["gat", 0], ["gat", 0]], [["ct", 0]]]),
+    ("rejected create-study, read / create", ["running"], [[["cs", "base"], ["gat", 0], ["gat", 0]], [["ct", 0]]]),
 ]
 
 
@@ -529,7 +540,7 @@ def enum_classic(ctx: Ctx, tier: str, shard: int, nshards: int) -> None:
         ctx.sub = "classic"
         run_scenario(case, ctx)
         ctx.event("classic:" + name)
-    ctx.exhaustive_parts.append("the twelve classic races on all eleven layouts: every single-preemption schedule on the in-memory / fakeredis layouts (quick tier: 50 / 24 sampled switch points on journal-file / SQLite layouts; thorough tier: all)")
+    ctx.exhaustive_parts.append("the fifteen classic races on all eleven layouts: every single-preemption schedule on the in-memory / fakeredis layouts (quick tier: 50 / 24 sampled switch points on journal-file / SQLite layouts; thorough tier: all)")
 
 
 CHECKS = [
